@@ -23,6 +23,7 @@ import (
 	"fmt"
 	"math"
 	"math/big"
+	"unsafe"
 
 	"github.com/tuneinsight/lattigo/v6/core/rlwe"
 	"github.com/tuneinsight/lattigo/v6/ring"
@@ -287,6 +288,29 @@ func matRows(m [][]ringqp.Poly) [][]uint64 {
 		}
 	}
 	return r
+}
+
+// sharesStorage reports whether a row of a and a row of b overlap in memory: a finalised key is an
+// object of its own, the aggregator's share and CRP buffers are written again in the next epoch.
+func sharesStorage(a, b [][]uint64) bool {
+	for _, x := range a {
+		if len(x) == 0 {
+			continue
+		}
+		x0 := uintptr(unsafe.Pointer(&x[0]))
+		x1 := x0 + uintptr(8*len(x))
+		for _, y := range b {
+			if len(y) == 0 {
+				continue
+			}
+			y0 := uintptr(unsafe.Pointer(&y[0]))
+			y1 := y0 + uintptr(8*len(y))
+			if x0 < y1 && y0 < x1 {
+				return true
+			}
+		}
+	}
+	return false
 }
 
 // addRows: dst += src (mod mods), exact.
